@@ -225,7 +225,7 @@ pub fn seeded_config(cases: u32, seed: u64) -> (Config, TestRng) {
 }
 
 /// Generated search for one property over world `W`.
-pub fn search<W: WorldDriver>(spec: &PropSpec, cfg: &Cfg, cases: u32, max_len: usize, seed: u64, record_traces: bool) -> Search {
+pub fn search<W: WorldDriver>(spec: &PropSpec, cfg: &Cfg, cases: u32, max_len: usize, seed: u64, record_traces: bool, last_case: Option<&str>) -> Search {
     let narch = W::archs().len();
     let strategy = (vec(any::<u8>(), 1 + narch), vec(any::<Rec>(), 0..=max_len));
     let (config, rng) = seeded_config(cases, seed);
@@ -233,6 +233,10 @@ pub fn search<W: WorldDriver>(spec: &PropSpec, cfg: &Cfg, cases: u32, max_len: u
     let stats = std::cell::RefCell::new(Stats::default());
     let result = runner.run(&strategy, |(hdr, recs)| {
         let case = make_case::<W>(spec, &hdr, &recs);
+        if let Some(p) = last_case {
+            // so that a crash (signal, abort) of this process can be attributed to a case
+            let _ = std::fs::write(p, case.to_text());
+        }
         let out = Session::<W>::run(&case, cfg);
         let mut st = stats.borrow_mut();
         st.record(spec, &case, &out);
@@ -250,9 +254,25 @@ pub fn search<W: WorldDriver>(spec: &PropSpec, cfg: &Cfg, cases: u32, max_len: u
     });
     let mut failure = None;
     if let Err(TestError::Fail(_, (hdr, recs))) = result {
-        let case = make_case::<W>(spec, &hdr, &recs);
-        // re-run the shrunk case strictly to obtain the final message
-        let strict = Cfg { intensity: cfg.intensity, ..cfg.clone() };
+        let mut case = make_case::<W>(spec, &hdr, &recs);
+        // proptest shrinks the records; finish with a greedy pass deleting whole ops
+        let fails = |c: &Case| Session::<W>::run(c, cfg).fail.map(|f| f.tags.contains(&spec.id)).unwrap_or(false);
+        let mut changed = true;
+        while changed {
+            changed = false;
+            let mut i = 0;
+            while i < case.ops.len() {
+                let mut c2 = case.clone();
+                c2.ops.remove(i);
+                if fails(&c2) {
+                    case = c2;
+                    changed = true;
+                } else {
+                    i += 1;
+                }
+            }
+        }
+        let strict = cfg.clone();
         let out = Session::<W>::run(&case, &strict);
         if let Some(f) = out.fail {
             failure = Some((case, f));
